@@ -531,23 +531,20 @@ pub fn at_quiescence(w: &mut World) -> VResult {
 
 // ---- special cell kinds (own worlds) — filled in by their modules ---------------------------------
 
-pub fn corrupt_cell(_thorough: bool, _cell_seed: u64, _full: bool) -> crate::driver::CellResult {
-    crate::driver::CellResult::Died("corrupt profile not built".into())
+pub fn corrupt_cell(thorough: bool, cell_seed: u64, full: bool) -> crate::driver::CellResult {
+    crate::corrupt::cell_generated(thorough, cell_seed, full)
 }
-pub fn corrupt_replay(_rf: &crate::run::ReplayFile) -> crate::driver::CellResult {
-    crate::driver::CellResult::Died("corrupt profile not built".into())
-}
-pub fn ysync_cell_generated(_thorough: bool, _cell_seed: u64, _full: bool) -> crate::driver::CellResult {
-    crate::driver::CellResult::Died("ysync profile not built".into())
-}
-pub fn ysync_cell_replay(_rf: &crate::run::ReplayFile) -> crate::driver::CellResult {
-    crate::driver::CellResult::Died("ysync profile not built".into())
+pub fn corrupt_replay(rf: &crate::run::ReplayFile) -> crate::driver::CellResult {
+    crate::corrupt::cell_replay(rf)
 }
 pub fn minimise_special(rf: crate::run::ReplayFile) -> (Option<crate::run::ReplayFile>, String) {
-    (Some(rf), "not minimised".into())
+    crate::corrupt::minimise(rf)
 }
 
 pub fn coverage_rule(profile: &str) -> String {
+    if profile == "corrupt" {
+        return "each evaluation is one mutated input decoded at one public entry point inside a resource-metered child process. Inputs: payloads of every wire type produced by a seeded simulated cluster (v1/v2 updates incl. Skip/GC/pending merges, state vectors, snapshots, delete sets, Any values, sticky indexes, sync frames, awareness updates), hit by one seeded fault operator (truncation, byte set to 00/01/7f/80/ff, bit flip, varint replaced by 0/2^31-1/2^32-1/2^53-1/5- and 10-byte overlong, count field set to 2^31/2^32-1/2^53, splice of two payloads, nesting bombs up to depth 60000, inserted bytes, invalid UTF-8, several random bytes, unchanged). distinct = distinct (entry point, input bytes) pairs, counted per batch and summed; every mutated input is non-trivial by construction except the ~9 % left unchanged".into();
+    }
     format!(
         "each evaluation is one simulated run of profile `{}`: run configuration, workload, schedule and faults all drawn from one xoshiro256** stream seeded with mix(VERIF_SEED, index). A run is non-trivial iff >=1 fault fired AND >=1 pair of concurrent updates existed AND the armed oracle was evaluated >=5 times; distinct = distinct hash of the full event sequence (event kinds, actors, op kinds, message ids, i.e. workload + delivery order + fault positions)",
         profile
